@@ -47,7 +47,8 @@ import operator
 import sys
 import weakref
 
-from traits.api import HasTraits, Int, Str, List, Any, push_exception_handler
+from traits.api import (HasTraits, Int, Str, List, Any, Range, String, TraitError,
+                        push_exception_handler)
 
 try:
     from traits.api import ComparisonMode
@@ -70,8 +71,11 @@ META = {
              "of links that do not exist), scalar and list assignment (also of the value already "
              "held), every in-place list mutator incl. +=/*= through the attribute, reversed and "
              "extended slices and failing calls, dropping an object (half of them cyclic garbage) + "
-             "gc.collect(), creating a fresh partner. Five strata (core / extended slices / partner "
-             "collection / both / redundant list paths) so that an open finding in one stratum "
+             "gc.collect(), creating a fresh partner. Six strata (core / extended slices / partner "
+             "collection / both / redundant list paths / heterogeneous partners: a hub attribute "
+             "with two partners, some of them narrower traits - Range, String(maxlen), "
+             "List(maxlen), List(Range) - that refuse some of the values, or one-way targets "
+             "changed locally) so that an open finding in one stratum "
              "does not truncate the others. distinct_nontrivial counts distinct (op class, source "
              "context, reach size class, mutual-class size class, alias involved, outcome class, "
              "notified-node count class) signatures of steps in which something changed, was "
@@ -98,7 +102,15 @@ META = {
                   "always_notifying_assignments_propagated": 1000,
                   "equal_value_assignments_forwarded": 300,
                   "objects_with_unmaterialised_defaults": 9000,
-                  "links_to_recycled_address": 800},
+                  "links_to_recycled_address": 800,
+                  "histories_hetero": 900, "source_rejections": 1200,
+                  "partner_rejections_assign": 350, "partner_rejections_assign-list": 140,
+                  "partner_rejections_list-mutation": 120,
+                  "weak_partner_served_before_updated_partner": 330,
+                  "weak_before_updated_assign": 85, "weak_before_updated_assign-list": 30,
+                  "weak_before_updated_list-mutation": 210,
+                  "drifted_target_served_before_updated_partner": 190,
+                  "drifted_target_before_updated_partner_extended_slice": 30},
         "thorough": {"evaluations": 1900000, "propagations_checked": 400000,
                      "mutual_list_mutations": 150000, "oneway_assignments": 34000,
                      "reverse_direction_checks": 88000, "ops_after_unlink": 100000,
@@ -120,7 +132,15 @@ META = {
                      "always_notifying_assignments_propagated": 12000,
                      "equal_value_assignments_forwarded": 4000,
                      "objects_with_unmaterialised_defaults": 110000,
-                     "links_to_recycled_address": 10000},
+                     "links_to_recycled_address": 10000,
+                     "histories_hetero": 11000, "source_rejections": 15000,
+                     "partner_rejections_assign": 4400, "partner_rejections_assign-list": 1750,
+                     "partner_rejections_list-mutation": 1500,
+                     "weak_partner_served_before_updated_partner": 4100,
+                     "weak_before_updated_assign": 1050, "weak_before_updated_assign-list": 370,
+                     "weak_before_updated_list-mutation": 2600,
+                     "drifted_target_served_before_updated_partner": 2400,
+                     "drifted_target_before_updated_partner_extended_slice": 370},
     },
     "assumptions": [
         "the model (directed link graph + value semantics of assignment, slice semantics of a "
@@ -129,6 +149,11 @@ META = {
         "from the generated multi-partner histories",
         "in-place mutation of a one-way source is demanded of the target only when both were "
         "equal before the mutation (the statement speaks of assignments only)",
+        "heterogeneous partners: a partner whose own trait refuses a forwarded value or list "
+        "replay keeps its value and forwards nothing, every other partner must still follow; "
+        "what a replay does to a partner that was out of step is unspecified; attributes are "
+        "only linked when each accepts the other's current value (a refused equalising "
+        "assignment raises out of sync_trait, which the statement does not cover)",
         "which side's value wins when a link is created is not specified by the statement; the "
         "oracle only requires mutual classes to be equal afterwards and unrelated nodes untouched",
     ],
@@ -211,6 +236,32 @@ class NodeCmpOne(Base):
     ys = List(Int, [2, 2], comparison_mode=ComparisonMode.identity)
 
 
+class NodeNarrow(Node):
+    """Narrower traits under the same names: some values a plain partner holds are rejected."""
+    v = Range(0, 2)
+    w = Range(1, 3)
+    s = String(maxlen=1)
+    xs = List(Int, maxlen=4)
+    ys = List(Range(0, 4))
+
+
+class NodeNarrow2(Node):
+    v = Range(1, 3)
+    w = Range(0, 2)
+    t = String(maxlen=1)
+    xs = List(Range(0, 4))
+    ys = List(Int, maxlen=3)
+
+
+# what a narrow attribute accepts (whole value; lists: length and every item)
+CONSTRAINTS = {
+    "narrow": {"v": lambda x: 0 <= x <= 2, "w": lambda x: 1 <= x <= 3, "s": lambda x: len(x) <= 1,
+               "xs": lambda x: len(x) <= 4, "ys": lambda x: all(0 <= i <= 4 for i in x)},
+    "narrow2": {"v": lambda x: 1 <= x <= 3, "w": lambda x: 0 <= x <= 2, "t": lambda x: len(x) <= 1,
+                "xs": lambda x: all(0 <= i <= 4 for i in x), "ys": lambda x: len(x) <= 3},
+}
+
+
 # flavour -> (class, list defaults, names with a dynamic default method, names whose every
 #             assignment notifies, tag)
 FLAVOURS = {
@@ -222,7 +273,11 @@ FLAVOURS = {
     "static": (NodeStatic, {"xs": [1, 2, 3], "ys": [0]}, (), (), "static"),
     "cmp": (NodeCmp, {"xs": [], "ys": []}, (), ("xs", "ys"), "cmp"),
     "cmp1": (NodeCmpOne, {"xs": [], "ys": [2, 2]}, (), ("ys",), "cmp"),
+    "narrow": (NodeNarrow, {"xs": [], "ys": []}, (), (), "narrow"),
+    "narrow2": (NodeNarrow2, {"xs": [], "ys": []}, (), (), "narrow"),
 }
+# heterogeneous-partner stratum: narrow and plain objects side by side
+HETERO_WEIGHTS = (("narrow", 30), ("narrow2", 25), ("plain", 25), ("dyn", 10), ("static", 10))
 FLAVOUR_WEIGHTS = (("plain", 26), ("dyn", 14), ("dyn1", 10), ("sub", 12), ("sub1", 8),
                    ("static", 10), ("cmp", 12), ("cmp1", 8))
 
@@ -455,7 +510,8 @@ class World:
         self.rng = rng
         self.stratum = stratum
         self.lens = lens
-        self.allow_ext = stratum in ("ext", "all")
+        self.hetero = stratum == "hetero"
+        self.allow_ext = stratum in ("ext", "all", "hetero")
         self.allow_drop = stratum in ("gc", "all")
         self.allow_cycle = stratum == "cyclic"
         self.obj = {}          # slot -> Node
@@ -469,6 +525,10 @@ class World:
         self.relinkable = set()  # nodes that lost every link at some point (for the relink counter)
         self.flavour = {}      # serial -> flavour name
         self.pending = []      # scripted follow-up operations (partner replacement)
+        self.plan = []         # planned star links of the heterogeneous stratum
+        self.order = {}        # edge -> registration rank (partners are served in this order)
+        self.seq = 0
+        self.fw = []           # (forwarder, target, status) of the model's last propagation
         self.dead_addresses = set()   # only to COUNT address recycling, never used in a key
         self.recycled = set()  # serials of objects living where a collected partner lived
         self.next_uid = 1
@@ -534,6 +594,28 @@ class World:
                 out.add("always")
         return out
 
+    def add_edge(self, e):
+        if e not in self.edges:
+            self.edges.add(e)
+            self.seq += 1
+            self.order[e] = self.seq
+
+    def del_edge(self, e):
+        self.edges.discard(e)
+        self.order.pop(e, None)
+
+    def narrow(self, n):
+        c = CONSTRAINTS.get(self.flavour[n[0]])
+        return bool(c) and n[1] in c
+
+    def accepts(self, n, value):
+        c = CONSTRAINTS.get(self.flavour[n[0]])
+        p = c.get(n[1]) if c else None
+        return True if p is None else bool(p(value))
+
+    def outs(self, x):
+        return sorted(self.out(x), key=lambda t: self.order.get((x, t), 0))
+
     def fires(self, m, old, value):
         return self.mode(m) == "always" or old != value
 
@@ -544,6 +626,8 @@ class World:
         is_list = GROUP[n[1]] == "list"
         fired = set()
         old = exp[n]
+        if not self.accepts(n, value):
+            return fired
         exp[n] = list(value) if is_list else value
         if not self.fires(n, old, value):
             return fired
@@ -553,18 +637,64 @@ class World:
 
         def prop(x):
             locked.add(x)
-            for t in sorted(self.out(x)):
+            for t in self.outs(x):
                 if t in locked:
+                    continue
+                if not self.accepts(t, value):
+                    # a partner that cannot take the value keeps its own and forwards nothing
+                    self.fw.append((x, t, "rejected"))
                     continue
                 o = exp[t]
                 exp[t] = list(value) if is_list else value
                 if self.fires(t, o, value):
+                    self.fw.append((x, t, "updated"))
                     calls[t] = calls.get(t, 0) + 1
                     fired.add(t)
                     prop(t)
+                else:
+                    self.fw.append((x, t, "same"))
             locked.discard(x)
         prop(n)
         return fired
+
+    def model_mutate(self, exp, n, old, new, adopt, calls):
+        """In-place mutation semantics, path by path (heterogeneous stratum; list links form a
+        forest there): a partner in step with its forwarder replays the event and ends up
+        equal, unless its own trait refuses the result, in which case it keeps its items and
+        forwards nothing; what the replay does to a partner that was out of step (a one-way
+        target changed locally) is unspecified, for it and for everything behind it."""
+        rejected = set()
+        locked = set()
+
+        def unspecified(t):
+            stack = [t]
+            while stack:
+                y = stack.pop()
+                if y in adopt or y in locked:
+                    continue
+                adopt.add(y)
+                calls[y] = 1
+                stack.extend(self.out(y))
+
+        def prop(x):
+            locked.add(x)
+            for t in self.outs(x):
+                if t in locked or t in adopt:
+                    continue
+                if self.val[t] != old:
+                    self.fw.append((x, t, "adopt"))
+                    unspecified(t)
+                elif self.accepts(t, new):
+                    exp[t] = list(new)
+                    calls[t] = calls.get(t, 0) + 1
+                    self.fw.append((x, t, "updated"))
+                    prop(t)
+                else:
+                    rejected.add(t)
+                    self.fw.append((x, t, "rejected"))
+            locked.discard(x)
+        prop(n)
+        return rejected
 
     def model_assign_calls(self, exp, n, value):
         calls = {}
@@ -641,7 +771,7 @@ class World:
 
     # -- generic judgement -----------------------------------------------------------
     def judge(self, opclass, src, raised, expected_exc, exp, adopt, may_call, reach,
-              src_ctx, link_endpoints=None):
+              src_ctx, link_endpoints=None, rejected=()):
         """Compare the real world with the expectation after one operation.
 
         src: operated node or None; raised: (class, text) or None; exp: expected value
@@ -698,6 +828,9 @@ class World:
                 self.fail("linked/unrelated-node-changed/" + opclass, "unrelated attribute altered: " + desc)
             if link_endpoints is not None:
                 self.fail("link/value-from-nowhere", "after linking: " + desc)
+            if any(m in rejected for m in bad):
+                self.fail(opclass + "/rejecting-partner-changed",
+                          "a partner whose trait refuses the change did not keep its value: " + desc)
             if multi:
                 self.fail("multipath/list-mutation/diverged",
                           "in-place mutation applied more than once along redundant link paths: " + desc,
@@ -714,6 +847,8 @@ class World:
         # 2b. every mutual class is equal (also over adopted nodes)
         for m in sorted(act):
             cls = self.scc(m)
+            if len(cls) > 1 and self.hetero and any(self.narrow(k) for k in cls):
+                continue        # a narrower member may legitimately have refused a change
             if len(cls) > 1:
                 ctx.count("mutual_class_checks")
                 for k in cls:
@@ -827,10 +962,16 @@ class World:
             raised = (type(e), str(e)[:200])
         exp = dict(self.val)
         calls = {}
+        self.fw = []
+        expected_exc = None if self.accepts(n, value) else TraitError
         fired = self.model_assign(exp, n, value, calls)
         changed = {m for m in exp if exp[m] != self.val[m]}
-        calls.setdefault(n, 1)
-        self.judge(opclass, n, raised, None, exp, set(), calls, reach, src_ctx)
+        if expected_exc is None:
+            calls.setdefault(n, 1)
+        else:
+            self.ctx.count("source_rejections")
+        self.judge(opclass, n, raised, expected_exc, exp, set(), calls, reach, src_ctx,
+                   rejected={t for (_, t, st) in self.fw if st == "rejected"})
         self.account(opclass, n, src_ctx, reach, changed, old != value, raised, fired)
 
     def do_mut(self, op):
@@ -853,6 +994,9 @@ class World:
             apply_real(o, name, mop)
         except Exception as e:  # noqa: BLE001
             raised = (type(e), str(e)[:200])
+        self.fw = []
+        if self.hetero:
+            return self.do_mut_hetero(n, opclass, old, new, expected_exc, raised, reach, src_ctx)
         exp = dict(self.val)
         exp[n] = new
         adopt = set()
@@ -884,6 +1028,25 @@ class World:
         self.judge(opclass, n, raised, expected_exc, exp, adopt, may_call, reach, src_ctx)
         self.account(opclass, n, src_ctx, reach, changed, new != old, raised)
 
+    def do_mut_hetero(self, n, opclass, old, new, expected_exc, raised, reach, src_ctx):
+        if self.narrow(n) and (expected_exc is not None or not self.accepts(n, new)):
+            # the trait list validates before it indexes: either complaint is fine
+            expected_exc = (IndexError, ValueError, TraitError)
+            new = list(old)
+            self.ctx.count("source_rejections")
+        exp = dict(self.val)
+        exp[n] = new
+        adopt = set()
+        calls = {}
+        rejected = set()
+        if expected_exc is None:
+            calls[n] = 1
+            rejected = self.model_mutate(exp, n, old, new, adopt, calls)
+        changed = {m for m in exp if m not in adopt and exp[m] != self.val[m]}
+        self.judge(opclass, n, raised, expected_exc, exp, adopt, calls, reach, src_ctx,
+                   rejected=rejected)
+        self.account(opclass, n, src_ctx, reach, changed, new != old, raised)
+
     def do_link(self, op):
         _, sa, na, sb, nb, mutual, explicit_alias = op
         a = (self.uid[sa], na)
@@ -903,11 +1066,12 @@ class World:
         # how often each node may notify: replay the two equalising assignments on a copy
         sim = dict(self.val)
         calls = {}
+        self.fw = []
         if (a, b) not in self.edges:
-            self.edges.add((a, b))
+            self.add_edge((a, b))
             self.model_assign(sim, b, sim[a], calls)
         if mutual and (b, a) not in self.edges:
-            self.edges.add((b, a))
+            self.add_edge((b, a))
             self.model_assign(sim, a, sim[b], calls)
         affected = {a, b} | self.reach(a) | self.reach(b)
         opclass = "link" if mutual else "link-oneway"
@@ -942,7 +1106,7 @@ class World:
         gone = 0
         for e in [(a, b)] + ([(b, a)] if mutual else []):
             if e in self.edges:
-                self.edges.discard(e)
+                self.del_edge(e)
                 gone += 1
                 if self.outdeg(e[0]) == 0:
                     self.lost_out[e[0]] = "removed"
@@ -963,7 +1127,7 @@ class World:
         had_any = had_out | {t for (s, t) in self.edges if s[0] == uid and t[0] != uid}
         for e in sorted(self.edges):
             if e[0][0] == uid or e[1][0] == uid:
-                self.edges.discard(e)
+                self.del_edge(e)
         for n in [k for k in self.val if k[0] == uid]:
             del self.val[n]
         del self.flavour[uid]
@@ -1012,6 +1176,32 @@ class World:
                 ctx.count("equal_value_assignments_propagated")
         if opclass == "assign-list" and not really and n in fired and self.outdeg(n):
             ctx.count("equal_value_assignments_forwarded")
+        if self.hetero and self.fw:
+            kind = opclass.split("/")[0]
+            by_fw = {}
+            for (x, t, st) in self.fw:
+                by_fw.setdefault(x, []).append((self.order.get((x, t), 0), st))
+                if st == "rejected":
+                    ctx.count("partner_rejections_" + kind)
+                    src_tags = src_tags | {"hetero-reject"}
+            for x, lst in by_fw.items():
+                weak = [o for (o, st) in lst if st in ("rejected", "adopt")]
+                upd = [o for (o, st) in lst if st == "updated"]
+                if weak and upd:
+                    if min(weak) < max(upd):
+                        ctx.count("weak_partner_served_before_updated_partner")
+                        ctx.count("weak_before_updated_" + kind)
+                        src_tags = src_tags | {"weak-first"}
+                    if max(weak) > min(upd):
+                        ctx.count("weak_partner_served_after_updated_partner")
+                    if x != n:
+                        ctx.count("weak_partner_behind_forwarding_hub")
+                rej = [o for (o, st) in lst if st == "rejected"]
+                drift = [o for (o, st) in lst if st == "adopt"]
+                if drift and upd and min(drift) < max(upd):
+                    ctx.count("drifted_target_served_before_updated_partner")
+                    if opclass == "list-mutation/extended-slice":
+                        ctx.count("drifted_target_before_updated_partner_extended_slice")
         if not really:
             ctx.count("noop_steps")
         if others:
@@ -1059,8 +1249,44 @@ def init_values(rng):
     return d
 
 
-def pick_flavour(rng, eq_only):
-    pool = [(f, k) for f, k in FLAVOUR_WEIGHTS if not (eq_only and FLAVOURS[f][3])]
+def hetero_init_values(rng):
+    """Start values every narrow flavour accepts, so that the planned links can be made."""
+    d = {}
+    d["v"] = rng.choice((1, 2))
+    d["w"] = rng.choice((1, 2))
+    if rng.random() < 0.5:
+        d["s"] = rng.choice(("", "a", "b"))
+    if rng.random() < 0.6:
+        d["xs"] = [rng.randrange(5) for _ in range(rng.randint(0, 3))]
+    if rng.random() < 0.4:
+        d["ys"] = [rng.randrange(5) for _ in range(rng.randint(0, 3))]
+    return d
+
+
+def hetero_fresh_op(rng, slot):
+    return ("fresh", slot, rng.random() < 0.3, hetero_init_values(rng),
+            pick_flavour(rng, False, HETERO_WEIGHTS), rng.random() < 0.5)
+
+
+def hetero_plan(rng):
+    """A star: one hub attribute with both other objects as partners (mutual or hub -> partner),
+    for one to three trait groups; the order in which the partners are registered is random."""
+    hub = rng.choice(SLOTS)
+    plan = []
+    groups = [g for g in ("int", "str", "list") if rng.random() < 0.7] or [rng.choice(("int", "list"))]
+    rng.shuffle(groups)
+    for g in groups:
+        hname = rng.choice(GROUP_NAMES[g])
+        others = [x for x in SLOTS if x != hub]
+        rng.shuffle(others)
+        for p in others:
+            pname = hname if rng.random() < 0.6 else rng.choice(GROUP_NAMES[g])
+            plan.append(("link", hub, hname, p, pname, rng.random() < 0.6, rng.random() < 0.3))
+    return plan
+
+
+def pick_flavour(rng, eq_only, weights=None):
+    pool = [(f, k) for f, k in (weights or FLAVOUR_WEIGHTS) if not (eq_only and FLAVOURS[f][3])]
     x = rng.randrange(sum(k for _, k in pool))
     for f, k in pool:
         x -= k
@@ -1076,7 +1302,7 @@ def fresh_op(rng, slot, eq_only):
             rng.random() < 0.5)
 
 
-def gen_value(rng, name, cur, p_equal=0.15):
+def gen_value(rng, name, cur, p_equal=0.15, maxlen=4):
     g = GROUP[name]
     if g == "int":
         return rng.randrange(4)
@@ -1084,11 +1310,15 @@ def gen_value(rng, name, cur, p_equal=0.15):
         return rng.choice(STRS)
     if rng.random() < p_equal:
         return list(cur)
-    return [rng.randrange(6) for _ in range(rng.randint(0, 4))]
+    return [rng.randrange(6) for _ in range(rng.randint(0, maxlen))]
 
 
 def pick_node(rng, w, group=None, prefer_linked=0.75):
     nodes = [n for n in w.live_nodes() if group is None or GROUP[n[1]] == group]
+    if w.hetero and rng.random() < 0.45:
+        hubs = [n for n in nodes if w.outdeg(n) >= 2]
+        if hubs:
+            return rng.choice(sorted(hubs))
     if rng.random() < prefer_linked:
         linked = [n for n in nodes if any(n in e for e in w.edges)]
         loose = [n for n in nodes if n in w.relinkable or n in w.lost_out]
@@ -1096,6 +1326,13 @@ def pick_node(rng, w, group=None, prefer_linked=0.75):
         if pool:
             return rng.choice(sorted(pool))
     return rng.choice(sorted(nodes))
+
+
+def link_acceptable(w, a, b):
+    """sync_trait equalises the two attributes with a plain assignment when the link is made;
+    a value the other side refuses would raise out of sync_trait, which the statement does not
+    cover: only attributes that accept each other's current value are linked."""
+    return w.accepts(b, w.val[a]) and w.accepts(a, w.val[b])
 
 
 def gen_link(rng, w, group=None):
@@ -1113,6 +1350,8 @@ def gen_link(rng, w, group=None):
             nb = na if r < 0.7 else rng.choice(GROUP_NAMES[g])
         a, b = (w.uid[sa], na), (w.uid[sb], nb)
         if a == b:
+            continue
+        if w.hetero and not link_acceptable(w, a, b):
             continue
         if g == "list":
             cyc = w.would_cycle(a, b)
@@ -1142,6 +1381,12 @@ def gen_op(rng, w, step):
     free = [s for s in SLOTS if s not in w.obj]
     if len(w.obj) < 2:
         return fresh_op(rng, free[0], w.allow_cycle)
+    while w.plan:
+        op = w.plan.pop(0)
+        if op[1] in w.obj and op[3] in w.obj:
+            a, b = (w.uid[op[1]], op[2]), (w.uid[op[3]], op[4])
+            if a != b and link_acceptable(w, a, b) and not (GROUP[op[2]] == "list" and w.would_cycle(a, b)):
+                return op
     r = rng.random()
     if step < 3 and not w.edges:
         r = 0.0
@@ -1168,7 +1413,7 @@ def gen_op(rng, w, step):
                           rng.random() < 0.3)]
         return ("drop", slot)
     if free and r < (0.32 if w.allow_drop else 0.215):
-        return fresh_op(rng, free[0], w.allow_cycle)
+        return hetero_fresh_op(rng, free[0]) if w.hetero else fresh_op(rng, free[0], w.allow_cycle)
     if r < 0.52:
         n = pick_node(rng, w, rng.choice(("int", "int", "str")))
         return ("set", w.slot_of[n[0]], n[1], gen_value(rng, n[1], w.val[n]))
@@ -1176,7 +1421,8 @@ def gen_op(rng, w, step):
         n = pick_node(rng, w, "list")
         # where every assignment notifies, the value already held must travel too
         return ("set", w.slot_of[n[0]], n[1],
-                gen_value(rng, n[1], w.val[n], 0.4 if w.mode(n) == "always" else 0.15))
+                gen_value(rng, n[1], w.val[n], 0.4 if w.mode(n) == "always" else 0.15,
+                          5 if w.hetero else 4))
     n = pick_node(rng, w, "list")
     return ("mut", w.slot_of[n[0]], n[1], gen_mut(rng, w.val[n], w.allow_ext))
 
@@ -1199,8 +1445,12 @@ def run_history(ctx, h, stratum, lens, nops):
     rng = ctx.rng("hist", h)
     w = World(ctx, rng, stratum, lens)
     w.last_calls = {}
-    nobj = 3 if (stratum == "cyclic" or rng.random() < 0.6) else 2
-    script = [fresh_op(rng, SLOTS[i], stratum == "cyclic") for i in range(nobj)]
+    nobj = 3 if (stratum in ("cyclic", "hetero") or rng.random() < 0.6) else 2
+    if stratum == "hetero":
+        script = [hetero_fresh_op(rng, SLOTS[i]) for i in range(nobj)]
+        w.plan = hetero_plan(rng)
+    else:
+        script = [fresh_op(rng, SLOTS[i], stratum == "cyclic") for i in range(nobj)]
     if stratum == "cyclic" and rng.random() < 0.7:
         script += cyclic_prelude(rng)
     step = 0
@@ -1227,7 +1477,7 @@ def run_history(ctx, h, stratum, lens, nops):
     return trace
 
 
-STRATA = (("core", 40), ("ext", 14), ("gc", 26), ("all", 10), ("cyclic", 10))
+STRATA = (("core", 34), ("ext", 12), ("gc", 24), ("all", 10), ("cyclic", 8), ("hetero", 12))
 
 
 def stratum_of(h):
